@@ -1046,4 +1046,73 @@ example :
     (r1.2, r2.2, r3.2, r4.2, r5.2) = (.out (.id 0), .out (.id 1), .tooManyNamespaces, .out (.id 2), .tooManyMetrics) ∧
     r5.1.getMetric 97 0 2 = none ∧ r5.1.ns.mutEmpty = false ∧ (nd6.genMetricLim c 97 0 2).2 = .out (.id 3) := by decide
 
+/-! ## Round 12: the LRU sequence cache of `metricIndexDatabase` may evict / expire at any time
+
+`createSeriesID` answers `cache + 1` on a hit and `max(metric→series postings) + 1` (kv family ∪ mutable ∪
+immutable; 0 when empty) on a miss. The cache is an `expirable.LRU` (100000 entries, one hour): an entry can
+vanish between any two calls. `FOp.evictSeq shard m` is that event; since it is a constructor of `FOp`,
+`cover_reachable`, `series_sequence_above_dictionary`, `new_series_id_unused` and `flush_fault_verdict` above
+quantify over histories with evictions placed anywhere (between faulted flushes, crashes, reopen, …). -/
+
+/-- **whatever part of the sequence cache is gone when the call comes**: after any history (evictions
+included), drop the entries of any list of metrics from one shard's cache — the id the next new series of a
+metric gets is still larger than every id the series dictionary answers for that metric -/
+theorem series_ids_fresh_whatever_is_evicted (c : Cfg) (hc : c.seriesLimitFirst = true) (hp : c.prepareSwapsEmpty = true)
+    (ha : c.indexFlushAborts = true) (lim : Limits) (n : Nat) (ops : List FOp) (sh : Nat) (evicted : List Nat) (m ts i : Nat)
+    (h : (evicted.foldl Shard.evictSeq ((frun c [0, 1, 2, 3] { lim := lim, nShards := n } ops).shards sh)).series.lookup m ts = some i) :
+    i < (evicted.foldl Shard.evictSeq ((frun c [0, 1, 2, 3] { lim := lim, nShards := n } ops).shards sh)).createSeriesID m := by
+  have inv := cover_reachable c hc hp ha lim n ops sh
+  generalize (frun c [0, 1, 2, 3] { lim := lim, nShards := n } ops).shards sh = s at *
+  have key : ∀ (l : List Nat) (s : Shard), CoverInv s → CoverInv (l.foldl Shard.evictSeq s) := by
+    intro l
+    induction l with
+    | nil => intro s hs; exact hs
+    | cons a r ih => intro s hs; exact ih _ (coverInv_evictSeq hs a)
+  exact (key evicted s inv).new_id_unused h
+
+/-- an eviction is a history step like any other: the fault-placement theorem with an eviction spelled out
+in front of the call (the eviction of the very metric the new series belongs to) -/
+theorem new_series_id_unused_after_eviction (c : Cfg) (hc : c.seriesLimitFirst = true) (hp : c.prepareSwapsEmpty = true)
+    (ha : c.indexFlushAborts = true) (lim : Limits) (n : Nat) (ops : List FOp) (sh m ts ts' i : Nat) (tags : List (Nat × Nat))
+    (hold : ((frun c [0, 1, 2, 3] { lim := lim, nShards := n } (ops ++ [.evictSeq sh m])).shards sh).series.lookup m ts = some i)
+    (hnew : ((frun c [0, 1, 2, 3] { lim := lim, nShards := n } (ops ++ [.evictSeq sh m])).shards sh).series.lookup m ts' = none) :
+    ((frun c [0, 1, 2, 3] { lim := lim, nShards := n } (ops ++ [.evictSeq sh m])).genSeries c sh m ts' tags).2 ≠ .id i :=
+  new_series_id_unused c hc hp ha lim n (ops ++ [.evictSeq sh m]) sh m ts ts' i tags hold hnew
+
+/-- **an eviction does not even change the next id** — on states where the cover invariant holds and the
+cache entry is one of the metric's postings (`CacheTight`: `GenSeriesID` puts the new id into the cache and
+into the mutable postings together). Partial: `CacheTight` is shown for the states of the example below and
+is preserved by every step by inspection (postings only move towards the disk, a crash empties the cache),
+but its induction over `frun` is not carried out here; the safety statement above does not need it. -/
+theorem eviction_keeps_next_series_id_partial (sh : Shard) (inv : CoverInv sh) (ht : CacheTight sh) (m : Nat) :
+    (sh.evictSeq m).createSeriesID m = sh.createSeriesID m :=
+  evictSeq_same_next inv ht m
+
+/-- non-vacuity: two series, PrepareFlush, a faulted flush (postings committed, dictionary still frozen), a
+third series, eviction of the metric's entry: the miss branch reads kv family ∪ mutable and answers 3; the
+state has a non-empty cache before the eviction, committed, and mutable postings -/
+example :
+    let c : Cfg := { seriesLimitFirst := true, prepareSwapsEmpty := true }
+    let ops : List FOp := [.op (.series 0 0 1 []), .op (.series 0 0 2 [(1, 1)]), .op (.indexPrepare 0), .indexFlushFault 0 1,
+      .op (.series 0 0 3 [])]
+    let nd := frun c [0, 1, 2, 3] {} ops
+    let nd' := frun c [0, 1, 2, 3] {} (ops ++ [.evictSeq 0 0])
+    (nd.shards 0).seqCache 0 = some 2 ∧ (nd'.shards 0).seqCache 0 = none ∧
+    (nd'.shards 0).minv.disk.length = 2 ∧ (nd'.shards 0).minv.cur.length = 1 ∧
+    (nd'.shards 0).createSeriesID 0 = 3 ∧ (nd'.genSeries c 0 0 4 []).2 = .id 3 ∧
+    (nd'.shards 0).series.lookup 0 3 = some 2 := by decide
+
+namespace Neg
+
+/-- why the miss branch must read ALL three tiers of the postings: a `createSeriesID` that, on a miss, looked
+at the kv family only (what it sees right after a reopen) would hand out the id of a series whose posting is
+still in memory. Stated on the model's state: after two series and an eviction, the committed postings are
+empty although the dictionary answers 1 for the second series. -/
+theorem eviction_disk_only_would_reuse :
+    let c : Cfg := { seriesLimitFirst := true, prepareSwapsEmpty := true }
+    let nd := frun c [0, 1, 2, 3] {} [.op (.series 0 0 1 []), .op (.series 0 0 2 []), .evictSeq 0 0]
+    (nd.shards 0).series.lookup 0 2 = some 1 ∧ (nd.shards 0).minv.disk = [] ∧ (nd.shards 0).createSeriesID 0 = 2 := by decide
+
+end Neg
+
 end LinVerif.Props.C09
